@@ -507,3 +507,128 @@ Section DecodeEncode.
       + cbn [bind_tmp_number]. keys. destruct (read_last lr (sanitize la)) as [[d nv]|]; reflexivity.
     - cbn [bind_tmp_number]. keys. destruct (read_last lr (sanitize la)) as [[d nv]|]; reflexivity.
   Qed.
+
+  Lemma bind_elems_canon l cur :
+    bind_elems (map (canon true) (map jstr l)) cur = Some (map sanitize l).
+  Proof.
+    revert cur. induction l as [|x l IH]; intros cur; [reflexivity|].
+    cbn [map jstr canon bind_elems bind_string]. rewrite IH. reflexivity.
+  Qed.
+
+  Lemma bind_scopes_canon o cur :
+    bind_scopes cur (canon true (scopes_json o)) = Some (option_map (map sanitize) o).
+  Proof.
+    destruct o as [l|]; cbn [scopes_json canon bind_scopes option_map]; [|reflexivity].
+    rewrite bind_elems_canon. reflexivity.
+  Qed.
+
+  (* one member at a time: the tail of the member list is hidden while the head is decided *)
+  Ltac step_report :=
+    match goal with
+    | |- context [bind_report _ _ _ (_ :: ?r) _] =>
+      let rest := fresh "rest" in
+      let H := fresh "Hrest" in
+      remember r as rest eqn:H; cbn [bind_report]; keys; cbv iota; subst rest
+    end.
+
+  Lemma report_of_json_canon r j :
+    report_json r = Some j ->
+    report_of_json lr ptime ncanon (canon true j) = normalize lr ptime ncanon r.
+  Proof.
+    intros H. apply report_json_some in H. destruct H as (t & x & Ht & Hx & ->).
+    pose proof (unmarshal_stats_canon dstats_zero _ _ Ht) as Et.
+    pose proof (unmarshal_stats_canon dstats_zero _ _ Hx) as Ex.
+    unfold normalize, normalize_with.
+    cbn [canon map fst snd jstr report_of_json]. san_keys.
+    step_report. cbn [bind_bool].
+    step_report. cbn [bind_bool].
+    step_report. cbn [bind_time].
+    destruct (ptime (quote_body true (r_connected r))) as [c|]; [|reflexivity].
+    step_report. cbn [bind_time].
+    destruct (ptime (quote_body true (r_expiresAt r))) as [e|]; [|reflexivity].
+    step_report. cbn [bind_string].
+    step_report. rewrite bind_scopes_canon.
+    step_report.
+    cbn [bind_rxtx d_tx d_rx set_canRead set_canWrite set_connected set_expiresAt set_remoteAddr set_scopes dreport_zero fst snd].
+    keys. cbv iota. cbn [fst snd]. rewrite Et.
+    destruct (view_stats_with lr ncanon sanitize (r_tx r)) as [vt|]; [|reflexivity].
+    cbn [fst snd]. rewrite Ex.
+    destruct (view_stats_with lr ncanon sanitize (r_rx r)) as [vx|]; [|reflexivity].
+    step_report. cbn [bind_string].
+    step_report. cbn [bind_string].
+    reflexivity.
+  Qed.
+
+  Lemma map_opt_reports_canon rs l :
+    map_opt report_json rs = Some l ->
+    map_opt (report_of_json lr ptime ncanon) (map (canon true) l) = map_opt (normalize lr ptime ncanon) rs.
+  Proof.
+    revert l. induction rs as [|r rs IH]; intros l; cbn [map_opt].
+    - intros H; inversion H; subst. reflexivity.
+    - destruct (report_json r) as [j|] eqn:Ej; [|discriminate].
+      destruct (map_opt report_json rs) as [js|] eqn:Ejs; [|discriminate]. intros H; inversion H; subst.
+      cbn [map map_opt]. rewrite (report_of_json_canon _ _ Ej), (IH js eq_refl). reflexivity.
+  Qed.
+
+  Lemma reports_of_json_canon rs j :
+    reports_json rs = Some j ->
+    reports_of_json lr ptime ncanon (canon true j) = map_opt (normalize lr ptime ncanon) rs.
+  Proof.
+    unfold reports_json. destruct rs as [|r rs]; [intros H; inversion H; subst; reflexivity|].
+    destruct (map_opt report_json (r :: rs)) as [l|] eqn:E; [|discriminate]. intros H; inversion H; subst.
+    cbn [canon reports_of_json]. apply map_opt_reports_canon. exact E.
+  Qed.
+
+  (* what the published decoder makes of any encoded report list is [normalize], report by report,
+     whatever the library oracles are *)
+  Theorem decode_encode_sanitized_lemma rs s :
+    encode_reports rs = Some s ->
+    decode_reports lr ptime ncanon s = map_opt (normalize lr ptime ncanon) rs.
+  Proof.
+    unfold encode_reports, decode_reports. destruct (reports_json rs) as [j|] eqn:E; [|discriminate].
+    intros H; inversion H; subst. pose proof (reports_json_ok _ _ E) as [P D].
+    rewrite (parse_print true j P D). apply reports_of_json_canon. exact E.
+  Qed.
+
+  (* strings that are valid UTF-8 arrive unchanged *)
+  Definition stats_valid (s : rstats) : bool := valid_utf8 (rs_last s).
+  Definition report_valid (r : report) : bool :=
+    valid_utf8 (r_remoteAddr r) && valid_utf8 (r_topic r) && valid_utf8 (r_userAgent r)
+    && match r_scopes r with Some l => forallb valid_utf8 l | None => true end
+    && stats_valid (r_tx r) && stats_valid (r_rx r).
+
+  Lemma map_sanitize_valid l : forallb valid_utf8 l = true -> map sanitize l = l.
+  Proof.
+    induction l as [|x l IH]; cbn [forallb map]; [reflexivity|]. intros H. apply andb_true_iff in H.
+    destruct H as [H1 H2]. rewrite (sanitize_valid _ H1), (IH H2). reflexivity.
+  Qed.
+
+  Lemma view_stats_valid s : stats_valid s = true ->
+    view_stats_with lr ncanon sanitize s = view_stats_with lr ncanon (fun x => x) s.
+  Proof.
+    destruct s as [la sz fp]. unfold stats_valid. cbn [rs_last]. intros H.
+    unfold view_stats_with. rewrite (sanitize_valid _ H). reflexivity.
+  Qed.
+
+  Lemma normalize_valid r : report_valid r = true -> normalize lr ptime ncanon r = read_back lr ptime ncanon r.
+  Proof.
+    unfold report_valid, normalize, read_back, normalize_with. intros H.
+    repeat (apply andb_true_iff in H; let H' := fresh "V" in destruct H as [H H']).
+    rewrite (view_stats_valid _ V0), (view_stats_valid _ V), (sanitize_valid _ H), (sanitize_valid _ V3), (sanitize_valid _ V2).
+    destruct (r_scopes r) as [l|]; cbn [option_map]; [rewrite (map_sanitize_valid _ V1), map_id|]; reflexivity.
+  Qed.
+
+  Lemma map_opt_ext {A B} (f g : A -> option B) l : (forall x, In x l -> f x = g x) -> map_opt f l = map_opt g l.
+  Proof.
+    induction l as [|x l IH]; intros H; [reflexivity|]. cbn [map_opt].
+    rewrite (H x (or_introl eq_refl)), IH; [reflexivity|]. intros y Hy. apply H. right. exact Hy.
+  Qed.
+
+  Theorem decode_encode_lemma rs s :
+    encode_reports rs = Some s -> forallb report_valid rs = true ->
+    decode_reports lr ptime ncanon s = map_opt (read_back lr ptime ncanon) rs.
+  Proof.
+    intros He Hv. rewrite (decode_encode_sanitized_lemma _ _ He). apply map_opt_ext.
+    intros r Hr. apply normalize_valid. rewrite forallb_forall in Hv. apply Hv. exact Hr.
+  Qed.
+End DecodeEncode.
